@@ -149,6 +149,10 @@ TextInverse(N) == {<<"TextInverse", q, <<N.spaces[N.tback[q].s].sec>> >> : q \in
 HistoryIndependent(N) == {<<"HistoryIndependent", i, Det(N, i)>> : i \in {j \in DOMAIN N.items :
                 N.hasfresh /\ N.items[j].named /\ N.items[j].name # N.items[j].fresh}}
 
+\* only the assignment of the names within the namespaces differs from first use, not the names themselves
+FreshNamesOf(N, S) == {N.items[i].fresh : i \in {j \in S : N.items[j].named}}
+Permuted(N) == \A k \in DOMAIN N.spaces : NamesOf(N, Rng(N.spaces[k].items)) = FreshNamesOf(N, Rng(N.spaces[k].items))
+
 Failures(K, N) ==
    IF N.lang = "none" THEN {}
    ELSE Named(N) \cup Valid(N) \cup NotKeyword(K, N) \cup Distinct(N) \cup InverseLk(N) \cup TextValid(K, N)
